@@ -1,7 +1,7 @@
 INIT Init
 NEXT Next
 CONSTANTS
-  Parts = {"real", "cx", "arr", "inf", "fine", "cans"}
+  Parts = {"real", "cx", "arr", "inf", "fine", "cans", "fun"}
   Level = 1
 INVARIANT LawOutDomain
 INVARIANT InvZeroDeviation
@@ -17,6 +17,7 @@ INVARIANT InvMarginConsistent
 INVARIANT InvOrderIrrelevant
 INVARIANT InvConstAnswerAllSamples
 INVARIANT InvMulShortcut
+INVARIANT InvCarrierIrrelevant
 INVARIANT InvFailableMonotone
 INVARIANT InvAllMiss
 INVARIANT InvAllMissRejected
